@@ -1959,9 +1959,11 @@ class FileBuilder:
         for dir_ in self._old_cache.created_dirs():
             dirs_to_remove.discard(os.path.normcase(dir_))
 
-        for filename in self._new_cache.created_files():
-            if not self._old_cache.created_file(filename):
-                FileBuilder._try_to_remove_file(filename)
+        # Remove the files we built or rebuilt, including output files of the
+        # previous build that were missing. restore_all() brings back the old
+        # contents of the ones we backed up.
+        for filename in self._new_cache.started_files():
+            FileBuilder._try_to_remove_file(filename)
         FileBuilder._remove_empty_dirs(list(dirs_to_remove))
 
         FileBuilder._create_dirs(self._old_cache.created_dirs())
